@@ -63,6 +63,7 @@ def patched_world(run):
     def _mk(f):
         def _Step(self, *a, **k):
             run.counts['_Step.begin'] += 1
+            if run.pre_step is not None: run.pre_step(self)
             r = f(self, *a, **k)
             run.counts['_Step.done'] += 1
             return r
@@ -109,6 +110,10 @@ class Harness(object):
         self.tags = {}
         self.passed_cost = False
         run.on_callback = self._on_callback
+        run.pre_step = self._pre_step
+        self.term_node = None       # termref.Node of the installed termination (None = solver default)
+        self.term_twin = None
+        self.forest = []            # extra (node, twin) pairs evaluated by the harness only
 
     # -- helpers
     @property
@@ -121,11 +126,38 @@ class Harness(object):
         self.violations.append(v)
         return v
 
-    def snap(self):
-        return observe.solver_snap(self.solver)
+    def snap(self, solver=None, monitors=True):
+        s = observe.solver_snap(solver or self.solver, monitors=monitors)
+        c = self.run.clock
+        s['_clock'] = (c.wall, c.mono, c.cpu)
+        s['trialSolution'] = observe.canon(getattr(solver or self.solver, 'trialSolution', None))
+        return s
+
+    def _pre_step(self, solver):
+        if not any(getattr(o, 'before_step', None) for o in self.oracles): return
+        self.run.observing = True
+        try:
+            s = self.snap(solver, monitors=False)
+            s['_evals_logged'] = len(self.run.evals)
+            for o in self.oracles:
+                f = getattr(o, 'before_step', None)
+                if f: f(self, s, solver)
+        finally:
+            self.run.observing = False
+
+    def clock_now(self):
+        c = self.run.clock
+        return (c.wall, c.mono, c.cpu)
 
     def _on_callback(self, xt):
         self.steps_executed += 1
+        self.run.observing = True
+        try:
+            self._on_callback2(xt)
+        finally:
+            self.run.observing = False
+
+    def _on_callback2(self, xt):
         s = self.snap()
         s['_evals_logged'] = len(self.run.evals)
         s['_step_no'] = self.steps_executed
@@ -151,6 +183,17 @@ class Harness(object):
         self.tags.update(solver=p['solver'], cost=p['cost']['model'])
         _random.seed(p.get('lib_seed', 0))
         numpy.random.seed(p.get('lib_seed', 0) % (2**32))
+        if p.get('forest'):
+            from . import termref
+            self.run.observing = True
+            try:
+                for spec in p['forest']:
+                    n = termref.build(spec, self.clock_now)
+                    try: tw = termref.rebuild(n.obj)
+                    except Exception as e: tw = e
+                    self.forest.append((n, tw))
+            finally:
+                self.run.observing = False
         return s
 
     # -- operations
@@ -176,9 +219,13 @@ class Harness(object):
         self.history.append((self.op_index, op, res))
         self.run.trace.append(('op', self.op_index, kind, observe.canon(res.get('ret')),
                                res.get('exc')))
-        for o in self.oracles:
-            g = getattr(o, 'after_op', None)
-            if g: g(self, op, res)
+        self.run.observing = True
+        try:
+            for o in self.oracles:
+                g = getattr(o, 'after_op', None)
+                if g: g(self, op, res)
+        finally:
+            self.run.observing = False
         return res
 
     def op_set(self, op):
@@ -215,8 +262,14 @@ class Harness(object):
             s.SetReducer(reducer_fn(arg) if arg else None, arraylike=True)
             self.settings_epoch += 1
         elif what == 'termination':
+            from . import termref
             self.term_spec = arg
-            s.SetTermination(build_term(arg))
+            self.term_node = termref.build(arg, self.clock_now)
+            s.SetTermination(self.term_node.obj)
+            self.run.observing = True
+            try: self.term_twin = termref.rebuild(self.term_node.obj)
+            except Exception as e: self.term_twin = e
+            finally: self.run.observing = False
         elif what == 'limits':
             g, e = arg[0], arg[1]
             new = bool(arg[2]) if len(arg) > 2 else False
